@@ -2415,11 +2415,29 @@ def _shape_items(ev, v, n, mod):
     return len(items) - len(const), const
 
 
+def _is_bool_dtype(v):
+    return v is not None and ("bool" in repr(v).lower())
+
+
+def _is_float_like_dtype(v):
+    return v is None or _is_bool_dtype(v) or any(t in repr(v).lower() for t in ("float", "double", "complex"))
+
+
 def lib_zeros(ev, a, k, n, mod):
     batch, const = _shape_items(ev, a[0], n, mod)
+    dt = k.get("dtype", a[1] if len(a) > 1 else None)
+    if not _is_float_like_dtype(dt):
+        raise ev.err("numpy.zeros with a non-floating dtype is not modelled", n, mod)
+    fill = sp.false if _is_bool_dtype(dt) else sp.Integer(0)
     if not const:
-        return sp.Integer(0)
-    return ArrV(batch, const, sp.Integer(0))
+        return False if _is_bool_dtype(dt) else sp.Integer(0)
+    out = ArrV(batch, const, fill)
+    if _is_bool_dtype(dt):
+        out.is_cond = True
+    return out
+
+
+lib_zeros.kw = {"dtype"}
 
 
 UNINIT = sp.Symbol("UNINITIALISED_MEMORY")
@@ -2442,9 +2460,19 @@ def lib_empty_like(ev, a, k, n, mod):
 
 def lib_ones(ev, a, k, n, mod):
     batch, const = _shape_items(ev, a[0], n, mod)
+    dt = k.get("dtype", a[1] if len(a) > 1 else None)
+    if not _is_float_like_dtype(dt):
+        raise ev.err("numpy.ones with a non-floating dtype is not modelled", n, mod)
+    fill = sp.true if _is_bool_dtype(dt) else sp.Integer(1)
     if not const:
-        return sp.Integer(1)
-    return ArrV(batch, const, sp.Integer(1))
+        return True if _is_bool_dtype(dt) else sp.Integer(1)
+    out = ArrV(batch, const, fill)
+    if _is_bool_dtype(dt):
+        out.is_cond = True
+    return out
+
+
+lib_ones.kw = {"dtype"}
 
 
 INV_COUNTER = [0]
@@ -3213,6 +3241,32 @@ def lib_map(ev, a, k, n, mod):
     return Tup([ev.call(fn, list(args), {}, n, mod) for args in zip(*seqs)], "list")
 
 
+def lib_reduce(ev, a, k, n, mod):
+    """functools.reduce(f, iterable[, initial]): left fold"""
+    items = list(ev.iterate(a[1], n, mod))
+    if len(a) > 2:
+        acc = a[2]
+    elif items:
+        acc, items = items[0], items[1:]
+    else:
+        raise RaisedV("TypeError", f"{mod.rel}:{getattr(n, 'lineno', 0)}" if mod else "")
+    for i in items:
+        acc = ev.call(a[0], [acc, i], {}, n, mod)
+    return acc
+
+
+def lib_operator(opcls, nargs=2, compare=False):
+    def f(ev, a, k, n, mod):
+        if len(a) != nargs:
+            raise ev.err("operator function called with an unexpected number of arguments", n, mod)
+        if nargs == 1:
+            return ev.binop(ast.Sub(), sp.Integer(0), a[0], n, mod) if opcls is ast.USub else a[0]
+        if compare:
+            return ev.compare(opcls(), a[0], a[1], n, mod)
+        return ev.binop(opcls(), a[0], a[1], n, mod)
+    return f
+
+
 def lib_result_type(ev, a, k, n, mod):
     if all(_float_dtype(x) or (is_sym(x)) for x in a):
         return LibV("numpy.float64")
@@ -3231,6 +3285,12 @@ def lib_round(ev, a, k, n, mod):
 
 lib_round.kw = {"ndigits"}
 LIB.setdefault("round", lib_round)
+LIB.update({"functools.reduce": lib_reduce, "operator.add": lib_operator(ast.Add), "operator.sub": lib_operator(ast.Sub), "operator.mul": lib_operator(ast.Mult),
+            "operator.truediv": lib_operator(ast.Div), "operator.pow": lib_operator(ast.Pow), "operator.floordiv": lib_operator(ast.FloorDiv),
+            "operator.mod": lib_operator(ast.Mod), "operator.matmul": lib_operator(ast.MatMult), "operator.lshift": lib_operator(ast.LShift),
+            "operator.neg": lib_operator(ast.USub, 1), "operator.pos": lib_operator(ast.UAdd, 1),
+            "operator.eq": lib_operator(ast.Eq, compare=True), "operator.ne": lib_operator(ast.NotEq, compare=True), "operator.lt": lib_operator(ast.Lt, compare=True),
+            "operator.le": lib_operator(ast.LtE, compare=True), "operator.gt": lib_operator(ast.Gt, compare=True), "operator.ge": lib_operator(ast.GtE, compare=True)})
 LIB.update({"list.sort": lib_list_sort, "list.reverse": lib_list_misc("reverse"), "list.clear": lib_list_misc("clear"), "list.insert": lib_list_misc("insert"),
             "list.remove": lib_list_misc("remove")})
 # id(x): the identity of an object - distinct objects, distinct atoms (used as a cache key: the value cached under it is then
@@ -3307,7 +3367,13 @@ def lib_where3(ev, a, k, n, mod):
             return as_sym(v)
         out = ArrV(cond.batch, cond.shape, batch_last=cond.batch_last)
         for key in _it.product(*[range(s_) for s_ in cond.shape]):
-            out.cells[key] = sp.Function("WHERE")(cond.get(key), cell(x, key), cell(y, key))
+            c = cond.get(key)
+            if c is True or c == sp.true or (is_sym(c) and c == 1):
+                out.cells[key] = cell(x, key)
+            elif c is False or c == sp.false or (is_sym(c) and c == 0):
+                out.cells[key] = cell(y, key)
+            else:
+                out.cells[key] = sp.Function("WHERE")(c, cell(x, key), cell(y, key))
         return out
     raise ev.err("numpy.where with an unsupported condition", n, mod)
 
@@ -3583,7 +3649,17 @@ def _concat(ev, arrs, axis, n, mod):
 
 
 def lib_concatenate(ev, a, k, n, mod):
-    arrs = [_as_arr(ev, i, n, mod) for i in ev.iterate(a[0], n, mod)]
+    parts = list(ev.iterate(a[0], n, mod))
+    if len(parts) == 3 and all(is_sym(p_) for p_ in parts) and not set(k) - {"axis"}:
+        # (x[:1], x, x[-1:]) along the grid axis of a symbolic vector: x with its end points repeated (== numpy.pad(x, 1, 'edge'))
+        x = parts[1]
+        one, m1 = sp.Integer(1), sp.Integer(-1)
+        heads = [ev.subscript(x, SliceV(None, one, None), n, mod), ev.subscript(x, SliceV(sp.Integer(0), one, None), n, mod)]
+        tails = [ev.subscript(x, SliceV(m1, None, None), n, mod)]
+        if any(sp.simplify(parts[0] - h) == 0 for h in heads) and any(sp.simplify(parts[2] - t) == 0 for t in tails) \
+                and _const_int(k.get("axis", a[1] if len(a) > 1 else sp.Integer(0))) in (0, -1):
+            return edge_padded(x)
+    arrs = [_as_arr(ev, i, n, mod) for i in parts]
     if not all(isinstance(x, ArrV) for x in arrs):
         raise ev.err("concatenate of values that are not small arrays", n, mod)
     axis = _const_int(k.get("axis", a[1] if len(a) > 1 else sp.Integer(0)))
@@ -3622,6 +3698,7 @@ def lib_arange(ev, a, k, n, mod):
 
 lib_arange.kw = {"dtype"}
 LIB.update({"numpy.arange": lib_arange})
+LIB.setdefault("numpy.concatenate", lib_concatenate)
 def lib_trace(ev, a, k, n, mod):
     x = a[0]
     if not isinstance(x, ArrV):
